@@ -49,7 +49,7 @@ class Ctx(object):
         self.repo = Repo(repo_root)
         self.contracts = all_contracts()
         self.timeout = 60 if tier == "quick" else 240
-        self.outdir = os.path.join(VERIF, "out", prop)
+        self.outdir = os.path.join(VERIF, "out", prop if repo_root == "/repo" else prop + "-scratch")
         os.makedirs(self.outdir, exist_ok=True)
         self.workdir = tempfile.mkdtemp(prefix="pyvc-%s-" % prop)
         self.fun_info = []
@@ -121,6 +121,15 @@ def run_property(prop, tier="quick", seed=0, repo_root=None, only=None):
             o.prop = prop
         solve_all(obs, timeout_s=ctx.timeout, workdir=ctx.workdir, jobs=int(os.environ.get("PYVC_JOBS", "12")))
         known = load_known()
+        # lemma dependencies: a result that used a lemma counts only if that lemma is discharged in this run
+        by_name = {o.name: o for o in obs}
+        for o in obs:
+            for dep in o.meta.get("uses", []):
+                d = by_name.get(dep)
+                if (d is None or d.result["status"] != "unsat") and o.result["status"] == "unsat":
+                    o.result["status"] = "unknown"
+                    o.result["ok"] = False
+                    o.result["verdicts"]["_dependency"] = "lemma %s not discharged" % dep
         n_valid = n_dis = 0
         per_backend = {}
         solver_time = 0.0
@@ -159,7 +168,7 @@ def run_property(prop, tier="quick", seed=0, repo_root=None, only=None):
         if hasattr(pm, "bounded") and not only:
             try:
                 bounded = pm.bounded(ctx)
-                for v in bounded.get("violations", []):
+                for v in bounded.get("violations", [])[:5]:
                     what = v["what"]
                     kf = [f for f in known.get("findings", []) if finding_matches(f, prop, what)]
                     if kf:
@@ -177,9 +186,16 @@ def run_property(prop, tier="quick", seed=0, repo_root=None, only=None):
         for (f, what) in status["known"]:
             lines.append("KNOWN-FINDING: property=%s %s" % (prop, f.get("what", what)))
         seen = set()
+        seen_clause = set()
         for (what, path, with_input) in status["violations"]:
             if path in seen:
                 continue
+            # one line per (function, clause): variants and paths of the same clause are one violation
+            m_ = re.match(r"(\S+?)::(\S+?)\[[^\]]*\]::(?:\S+?::)?([a-z-]+:[^#\s]+)", what)
+            key_ = m_.groups() if m_ else what
+            if key_ in seen_clause:
+                continue
+            seen_clause.add(key_)
             seen.add(path)
             lines.append("VIOLATION property=%s replay=%s%s" % (prop, path, "" if with_input else " no-failing-input-found"))
         for d in status["degraded"]:
@@ -235,9 +251,10 @@ def run_property(prop, tier="quick", seed=0, repo_root=None, only=None):
                   wall_s=round(time.time() - t0, 2), violations=len(seen),
                   known_findings=[f.get("what") for (f, _) in status["known"]],
                   exit_code=code)
-        os.makedirs(os.path.join(VERIF, "evidence"), exist_ok=True)
-        with open(os.path.join(VERIF, "evidence", prop + ".json"), "w") as f:
-            json.dump(ev, f, indent=1, default=repr)
+        if not os.environ.get("VERIF_NO_EVIDENCE") and not only:
+            os.makedirs(os.path.join(VERIF, "evidence"), exist_ok=True)
+            with open(os.path.join(VERIF, "evidence", prop + ".json"), "w") as f:
+                json.dump(ev, f, indent=1, default=repr)
         print("\n".join(lines))
         print("%s tier=%s obligations=%d discharged=%d undecided=%d violations=%d known=%d wall=%.1fs exit=%d" % (
             prop, tier, n_valid, n_dis, len(status["undecided"]), len(seen), len(status["known"]),
